@@ -117,7 +117,3 @@ Theorem C07_sync_ack_safety_replica :
     (com_id st = 0 \/ p_alh_at (y_p (yrun H acks c n ops)) (com_id st) = Some (com_alh H st)).
 Proof. exact sync_replica_commits_after_primary. Qed.
 Print Assumptions C07_sync_ack_safety_replica.
-
-(* "durably hold" is REFUTED for a replica store with embedded values (its reload loop does not skip
-   the values prefix of the tx log; a reopened replica has lost the precommitted transactions it had
-   reported): Repl/Witness.v, restart_durable_refuted.  Known finding. *)
